@@ -272,6 +272,22 @@ def check_scan_step(ck, prog):
         return
     ctx = prog.ctx(fn)
     cfg = ctx.cfg
+    # a pairwise comparison of haystack and needle bytes (`zip`) ends at the SHORTER side: when the haystack runs out first, what is left
+    # of the needle is never compared and `all` / `eq` answer "equal" - a proper prefix of the needle at the end of the haystack is
+    # then reported as an occurrence. Such a pairing must stand under a comparison of the two lengths.
+    for bb, t in cfg.calls(lambda t: (t.get("callee") or "").endswith(("Iterator::zip", "iter::zip"))):
+        a = ctx.args(bb)
+        if len(a) < 2:
+            continue
+        ca, cb = canon(a[0]), canon(a[1])
+        if not (("p1" in ca and "p2" in cb) or ("p2" in ca and "p1" in cb)):
+            continue
+        facts = panics.dominating_facts(ctx, bb)
+        lens = any(f[0] == "cmp" and f[1] in ("Le", "Lt", "Ge", "Gt") and "len" in show(f[2]) + show(f[3]) and
+                   (("p1" in canon(f[2]) and "p2" in canon(f[3])) or ("p2" in canon(f[2]) and "p1" in canon(f[3]))) for f in facts)
+        ck.ob("C11.5", "pairwise-comparison-covers-the-whole-needle", lens, fn=fn["path"], site=ctx.site(bb),
+              detail="haystack and needle bytes are paired with zip, which stops at the shorter side, without a comparison of the two lengths above it: "
+                     "when the haystack ends first the rest of the needle is never compared (\"abab\".find(\"abb\") == Some(2))")
     # the bounds-checked index into parameter 1 (this_buf)
     idxs = []
     for b in fn["blocks"]:
